@@ -123,14 +123,16 @@ func runC06(c *Ctx) {
 	f := w.Facts(attest)
 	// ---- R1 ----
 	var verify *ssa.Call
-	for _, call := range callsTo(attest, "(*crypto/x509.Certificate).Verify") {
+	for _, call := range w.callsToDeep(attest, "(*crypto/x509.Certificate).Verify") {
 		verify, _ = call.(*ssa.Call)
 	}
+	// the signature check: the repository function taking (x509.SignatureAlgorithm, signed, signature, key)
 	var check *ssa.Call
-	for _, call := range callsIn(attest) {
+	for _, call := range w.callsInDeep(attest) {
 		if cv, ok := call.(*ssa.Call); ok {
-			if callee := cv.Call.StaticCallee(); callee != nil && w.InRepo(callee) && callee.Signature.Params().Len() == 4 {
+			if callee := w.helperOf(cv); callee != nil && callee.Signature.Params().Len() == 4 && strings.HasSuffix(callee.Signature.Params().At(0).Type().String(), "crypto/x509.SignatureAlgorithm") {
 				check = cv
+				w.Opaque(callee)
 			}
 		}
 	}
@@ -154,7 +156,7 @@ func runC06(c *Ctx) {
 	}
 	c.Check(okOpts, "R1.chain", "Attest|verified against the configured root pool only", w.Pos(verify.Pos()), "VerifyOptions{Roots: a.roots}", "chain verification does not use exactly the configured root pool")
 	isNil, known := f.KnownNil(check.Block(), extractOf(verify, 1))
-	c.Check(known && isNil && InstrDominates(verify, check), "R1.chain", "Attest|signature check only after the chain verified", w.Pos(check.Pos()), "must-fact Verify err == nil", "the signature check can run (and attestation succeed) without a successful chain verification")
+	c.Check(known && isNil && w.DeepDominates(attest, verify, check), "R1.chain", "Attest|signature check only after the chain verified", w.Pos(check.Pos()), "must-fact Verify err == nil", "the signature check can run (and attestation succeed) without a successful chain verification")
 	wantArgs := []string{"p2.SignatureAlgorithm", "p2.RawTBSCertificate", "p2.Signature", "p1.PublicKey"}
 	okArgs := len(check.Call.Args) == 4
 	for i, a := range check.Call.Args {
@@ -165,7 +167,7 @@ func runC06(c *Ctx) {
 	c.Check(okArgs, "R1.chain", "Attest|signature check arguments", w.Pos(check.Pos()), "(attestCert.SignatureAlgorithm, attestCert.RawTBSCertificate, attestCert.Signature, f9Cert.PublicKey)", "the signature check is not given the slot certificate's algorithm/body/signature and the device certificate's key: "+exprList(w, check.Call.Args))
 	for _, r := range w.MayBeNilReturns(attest) {
 		ok := true
-		for _, lf := range w.Leaves(r.Results[0], r) {
+		for _, lf := range w.LeavesErr(r.Results[0], r) {
 			if w.NonNil(lf.Val, lf.Facts) {
 				continue
 			}
@@ -477,7 +479,9 @@ func checkVerifier(c *Ctx, fn *ssa.Function) {
 		return
 	}
 	emx := w.Expr(em.Call.Args[0])
-	okEM := strings.HasPrefix(emx, "call<(*math/big.Int).Bytes>(call<"+RepoMod+"/attestation/yubiattest.") && strings.Contains(emx, ",p0,call<(*math/big.Int).SetBytes>(alloc<math/big.Int>,p3))")
+	// either through the repository's public-key helper (checked below) or the exponentiation written in place
+	okEM := (strings.HasPrefix(emx, "call<(*math/big.Int).Bytes>(call<"+RepoMod+"/attestation/yubiattest.") && strings.Contains(emx, ",p0,call<(*math/big.Int).SetBytes>(alloc<math/big.Int>,p3))")) ||
+		emx == "call<(*math/big.Int).Bytes>(call<(*math/big.Int).Exp>(alloc<math/big.Int>,call<(*math/big.Int).SetBytes>(alloc<math/big.Int>,p3),call<math/big.NewInt>(conv<int64>(p0.E)),p0.N))"
 	c.Check(okEM, "R4.verifier", "verifier|EM is the signature raised with the device key", w.Pos(em.Pos()), "leftPad(encrypt(pub, SetBytes(sig)).Bytes(), k)", "the encoded message is not derived from the signature and the device key as expected: "+shortName(emx))
 	// size guard
 	guard := f.Any(em.Block(), func(l Lit) bool {
@@ -638,7 +642,46 @@ func checkVerifier(c *Ctx, fn *ssa.Function) {
 				continue
 			}
 			ia, isIA := ld.X.(*ssa.IndexAddr)
-			if !isIA || ia.X != ssa.Value(em) {
+			if !isIA {
+				continue
+			}
+			// second admitted form: for _, b := range EM[2 : k-T-1] { ok &= b == 0xff }
+			if sl, isSl := ia.X.(*ssa.Slice); isSl && sl.X == ssa.Value(em) && sl.Max == nil && isForwardRangeIndex(ia.Index) {
+				lowOK := false
+				if lo, isK := intConst(sl.Low); sl.Low != nil && isK && lo == 2 {
+					lowOK = true
+				}
+				highOK := false
+				if sub1, ok := sl.High.(*ssa.BinOp); sl.High != nil && ok && sub1.Op == token.SUB {
+					if one, ok := intConst(sub1.Y); ok && one == 1 {
+						if sub2, ok := sub1.X.(*ssa.BinOp); ok && sub2.Op == token.SUB && sub2.X == k {
+							if tphi, ok := sub2.Y.(*ssa.Phi); ok {
+								highOK = checkTPhi(w, tphi, L, mk, ors)
+							}
+						}
+					}
+				}
+				// the range runs over the whole sub-slice: the loop condition compares the range index with len(sub-slice)
+				full := false
+				for lit := range w.Facts(fn).At(l.call.Block()) {
+					if bin, ok := lit.V.(*ssa.BinOp); ok && bin.Op == token.LSS && lit.Pol && bin.X == ia.Index && lenArg(bin.Y) == ssa.Value(sl) {
+						full = true
+					}
+				}
+				accOK := false
+				for _, e := range loopPhi.Edges {
+					if b, ok := e.(*ssa.BinOp); ok && b.Op == token.AND && ((b.X == ssa.Value(loopPhi) && b.Y == ssa.Value(l.call)) || (b.Y == ssa.Value(loopPhi) && b.X == ssa.Value(l.call))) {
+						accOK = true
+					}
+				}
+				if lowOK && highOK && full && accOK {
+					okLoop = true
+				} else {
+					loopDetail = fmt.Sprintf("range form: low=%v high=%v whole-range=%v accumulate=%v", lowOK, highOK, full, accOK)
+				}
+				continue
+			}
+			if ia.X != ssa.Value(em) {
 				continue
 			}
 			iphi, isPhi := ia.Index.(*ssa.Phi)
@@ -813,8 +856,8 @@ func checkVerifierHelpers(c *Ctx, verifier, info, pad *ssa.Function) {
 		for _, call := range callsIn(pad) {
 			if b, ok := call.Common().Value.(*ssa.Builtin); ok && b.Name() == "copy" {
 				if sl, ok := call.Common().Args[0].(*ssa.Slice); ok && sl.High == nil && sl.Low != nil && w.Expr(call.Common().Args[1]) == "p0" {
-					lo := w.Expr(sl.Low)
-					okCopy = strings.HasPrefix(lo, "(call<builtin:len>(makeslice<[]byte>(p1))-phi{") && strings.Contains(lo, "call<builtin:len>(p0)") && strings.Contains(lo, "p1")
+					lo := strings.Replace(w.Expr(sl.Low), "call<builtin:len>(makeslice<[]byte>(p1))", "p1", 1)
+					okCopy = strings.HasPrefix(lo, "(p1-phi{") && strings.Contains(lo, "call<builtin:len>(p0)") && strings.Contains(lo, "p1")
 				}
 			}
 		}
